@@ -90,23 +90,23 @@ TEXT["C10"] = dict(
 )
 
 TEXT["C17"] = dict(
-    level="Stress monitoring under the race detector plus exact quiescence monitoring in synctest bubbles. Stress: 20 000 / 600 000 barrier-started rounds of concurrent Get calls (count and pointer-identity oracles; the evidence reports how many rounds had two or more callers inside one construction window) and semaphore loops with a live-holder counter (the evidence reports that the counter reached the capacity). Bubbles: every arrival order of up to 5/7 callers over up to 3 keys x every subset of parked constructions, and every script of up to 5/6 steps over 8 semaphore actions for capacities 0..3, each judged after synctest.Wait() so that 'blocked' and 'returned' are facts, not timeouts. Exploration over schedules.",
+    level="Stress monitoring under the race detector plus exact quiescence monitoring in synctest bubbles. Stress: 20 000 / 600 000 barrier-started rounds of concurrent Get calls (count and pointer-identity oracles; the evidence reports how many rounds had two or more callers inside one construction window) and semaphore loops with a live-holder counter (the evidence reports that the counter reached the capacity). Bubbles: every arrival order of up to 6/9 callers over up to 3 keys x every subset of parked constructions, and every script of up to 4/6 steps over 10 semaphore actions for capacities 0..3 (one bubble per scenario, run on all cores), each judged after synctest.Wait() so that 'blocked' and 'returned' are facts, not timeouts. Exploration over schedules.",
     note="Trusts testing/synctest of Go 1.24.2 and the race detector. A goroutine blocked on something the bubble cannot see (e.g. a mutex) is caught by the bounded-progress watchdog and a solo re-run.",
     technique="race-detector stress with counting monitors + synctest-bubble scenario enumeration judged at quiescence",
 )
 TEXT["C18"] = dict(
-    level="Online trace-specification monitoring inside synctest bubbles: all Shutdown outcome vectors (nil/error/panic/blocks until timeout) for up to 6/7 services crossed with signal scripts, and all tick-outcome sequences up to 10/13 ticks crossed with the shutdown options, are executed with fully instrumented collaborators; events are injected at quiescence and each log segment is checked against the statement's trace rules. An auxiliary race-detector stage fires ticks and signals concurrently with Shutdown. Exploration (the enumerated outcome space is swept completely; longer histories are not).",
+    level="Online trace-specification monitoring inside synctest bubbles: all Shutdown outcome vectors (nil/error/panic/blocks until timeout) for up to 6/9 services crossed with signal scripts, and all tick-outcome sequences up to 11/19 ticks crossed with the shutdown options, are executed with fully instrumented collaborators; events are injected at quiescence and each log segment is checked against the statement's trace rules. An auxiliary race-detector stage fires ticks and signals concurrently with Shutdown. Exploration (the enumerated outcome space is swept completely; longer histories are not).",
     note="Trusts testing/synctest of Go 1.24.2. Ticks racing Shutdown are outside the property's quantifier and only observed for data races.",
     technique="runtime trace checker over an ordered event log of instrumented collaborators, events injected at synctest quiescence",
 )
 
 TEXT["C19"] = dict(
-    level="Write-level runtime monitoring against a reference slog.TextHandler: every Write reaching the shared writer is captured and judged (one newline-terminated JSON object, exactly severity+message, message == reference line for the record plus the attributes accumulated on the derivation path) over all attribute-count derivation trees to depth 4/5 with 3 siblings per level, shared Records, hostile keys/values of every slog.Kind and 6 option sets; a concurrent stage under the race detector writes through a 7-handler tree to one deliberately unsynchronised writer and compares the multiset of lines with the references. Exploration.",
+    level="Write-level runtime monitoring against a reference slog.TextHandler: every Write reaching the shared writer is captured and judged (one newline-terminated JSON object, exactly severity+message, message == reference line for the record plus the attributes accumulated on the derivation path) over all attribute-count derivation trees to depth 4/5 with 3 siblings per level, shared Records, hostile keys/values of every slog.Kind and 6 option sets; a concurrent stage under the race detector writes through a 7-handler tree to one deliberately unsynchronised writer and compares the multiset of lines with the references; a writer-fault stage makes the shared writer fail or panic in one of its first Writes and requires every later record to still come out as one line. Exploration.",
     note="Trusts slog.TextHandler and encoding/json of the pinned stdlib. Comparison is semantic (decoded JSON), so escaping style and member order are free.",
     technique="runtime differential monitor on the writer boundary (reference text handler) + race detector with an unsynchronised recording writer",
 )
 TEXT["C20"] = dict(
-    level="Per-request-id trace checking under concurrency: tens of thousands of requests, each self-identifying in six places, pass through one LogMiddleware from up to 64 goroutines while an in-handler barrier provably holds several requests inside the wrapped handler at once (the evidence reports the maximum observed) and releases them in enumerated orders; log records (from copying and from slice-retaining slog handlers that yield at the suspension points), handler-side observations and client-side responses are grouped by id and must be mutually consistent; repeated under the race detector, with GOMAXPROCS=2 and over a real loopback server with keep-alive clients. Middleware order is checked for every permutation of up to 5/7 middlewares, wrapping the same slice repeatedly. Exploration over schedules.",
+    level="Per-request-id trace checking under concurrency: tens of thousands of requests, each self-identifying in six places, pass through one LogMiddleware from up to 64 goroutines while an in-handler barrier provably holds several requests inside the wrapped handler at once (the evidence reports the maximum observed) and releases them in enumerated orders; log records (from copying and from slice-retaining slog handlers that yield at the suspension points), handler-side observations and client-side responses are grouped by id and must be mutually consistent; repeated under the race detector, with GOMAXPROCS=2 over a real loopback server with keep-alive clients (origin-form, absolute-form and * request targets), and with golibs' own JSONHybridHandler carrying 0..12 chained attributes as the base logger. Middleware order is checked for every permutation of up to 5/7 middlewares, wrapping the same slice repeatedly. Exploration over schedules.",
     note="Trusts net/http/httptest and the race detector. Handlers set at most one final status code.",
     technique="runtime per-id trace checker over recorded log records and responses, barrier-forced overlap, race detector",
 )
